@@ -2,8 +2,8 @@
 (* C11, last clause: a pending host call exposes exactly the call's arguments and the program resumes with the
    value the host returns.  TLC enumerates every host-function signature of arity <= MaxArity over
    {int, float, bool, string} x every return type; each program declares two host functions whose names sort
-   before and after the prelude's (ids are assigned by sorted name), calls each twice with distinct arguments
-   and prints what came back.  Expected: the host log (function, arguments in order) and the printed output. *)
+   before and after the prelude's (ids are assigned by sorted name), calls each with distinct arguments (the
+   third call through a variable holding the function as a first-class value) and prints what came back.  Expected: the host log (function, arguments in order) and the printed output. *)
 EXTENDS Naturals, Integers, Sequences, FiniteSets, TLC, Json, IOUtils
 CONSTANTS MaxArity
 
@@ -45,7 +45,9 @@ SigName(s) == IF s = <<>> THEN "" ELSE ToString(s[1]) \o SigName(Tail(s))
 Case ==
   [id |-> "h" \o SigName(sig) \o "_" \o ret,
    files |-> ("main.abra" :> (Decl("aa_host", sig, ret) \o Decl("zz_host", sig, ret) \o
-                              Stmt("aa_host", sig, ret, 1) \o Stmt("zz_host", sig, ret, 2) \o Stmt("aa_host", sig, ret, 3) \o "println(\"end\")\n")),
+                              Stmt("aa_host", sig, ret, 1) \o Stmt("zz_host", sig, ret, 2) \o
+                              \* the third call goes through a variable that holds the host function as a value; a local below it
+                              "let marker = 4242\nlet hv = aa_host\n" \o Stmt("hv", sig, ret, 3) \o "println(marker)\nprintln(\"end\")\n")),
    hostfns |-> << [name |-> "aa_host", args |-> [i \in 1..Len(sig) |-> Types[sig[i]]], ret |-> ret,
                    rets |-> IF ret = "void" THEN <<>> ELSE <<RetV(ret, 1).obs, RetV(ret, 3).obs>>],
                   [name |-> "zz_host", args |-> [i \in 1..Len(sig) |-> Types[sig[i]]], ret |-> ret,
@@ -53,6 +55,6 @@ Case ==
    expect |-> [status |-> "done",
                host |-> <<HostLog("aa_host", sig, 1), HostLog("zz_host", sig, 2), HostLog("aa_host", sig, 3)>>,
                out |-> (IF ret = "void" THEN "back\nback\nback\n"
-                        ELSE RetV(ret, 1).show \o "\n" \o RetV(ret, 2).show \o "\n" \o RetV(ret, 3).show \o "\n") \o "end\n"]]
+                        ELSE RetV(ret, 1).show \o "\n" \o RetV(ret, 2).show \o "\n" \o RetV(ret, 3).show \o "\n") \o "4242\nend\n"]]
 Emit == PrintT(<<"CASE", ToJson(Case)>>)
 =============================================================================
